@@ -341,6 +341,10 @@ XZ_PAIRS = [("America/Denver", "America/Phoenix"), ("America/New_York", "America
             ("Australia/Sydney", "Australia/Brisbane"), ("America/Chicago", "America/Regina"), ("US/Pacific", "America/Denver")]
 
 
+MULTI_CHANGE_ZONES = ["Australia/Sydney", "Pacific/Auckland", "Australia/Adelaide", "America/Santiago", "America/New_York",
+                      "Europe/Berlin", "US/Pacific", "Europe/London", "America/Chicago", "America/Havana"]
+
+
 def gen_xz_cases(rng, reps):
     """spans that start before and end after a DST excursion of the first zone, chosen so that local 00:00 of the first
     day and local 23:00 of the last day are the SAME instants in both zones whenever the zones share their base offset
@@ -362,6 +366,25 @@ def gen_xz_cases(rng, reps):
         with_obs = rng.random() < 0.7
         for order in ((a, b), (b, a)):
             cases.append({"zones": list(order), "start": s, "n": (e - s) // 60 + 1, "with_obs": with_obs})
+    # long single-zone frames with SEVERAL clock changes, beginning with a fall-back: fall -> spring (a northern
+    # October-April span, a southern calendar year) and fall -> spring -> fall; the operations of _transform_dst then
+    # alternate REMOVE / INTERPOLATE in the other order than in a spring -> fall frame
+    for z in [m for m in MULTI_CHANGE_ZONES for _ in range(reps)]:
+        tr = cz.transitions(z)
+        starts = [i for i in range(len(tr) - 2) if tr[i][2] < tr[i][1] and (tr[i + 2][0] - tr[i][0]).days < 420]
+        if not starts:
+            continue
+        i = rng.choice(starts)
+        k = rng.choice([1, 1, 2])
+        d1 = tr[i][0].astimezone(cz.zone(z)).date().toordinal() - rng.choice([1, 2, 3])
+        d2 = tr[i + k][0].astimezone(cz.zone(z)).date().toordinal() + rng.choice([1, 2, 3])
+        s = cz.local_midnight_utc(d1, z, 0)
+        e = cz.local_midnight_utc(d2, z, 23)
+        if s is None or e is None:
+            continue
+        s, e = cz.to_minutes(s), cz.to_minutes(e)
+        cases.append({"zones": [z], "start": s, "n": (e - s) // 60 + 1, "with_obs": rng.random() < 0.7,
+                      "changes": "fall" + "->spring->fall"[:8 * k + 0] if False else ["fall->spring", "fall->spring->fall"][k - 1]})
     return cases
 
 
@@ -412,8 +435,11 @@ def process_xz(run, cases, results):
             flags = flags_of(group_days(grid, z), z)
             run.count(("xz", vlib.sha(c1)), nontrivial=flags["clock_change_in_span"] or pos > 0)
             p = rec["predict"]
-            run.dist("cross_zone_sequence", "%s after %s: %s" % (z, case["zones"][0] if pos else "nothing",
-                                                                 p.get("raised", "ok")))
+            if case.get("changes"):
+                run.dist("hourly_multi_change_frame", "%s %s: %s" % (z, case["changes"], p.get("raised", "ok")))
+            else:
+                run.dist("cross_zone_sequence", "%s after %s: %s" % (z, case["zones"][0] if pos else "nothing",
+                                                                     p.get("raised", "ok")))
             res = {"idx": grid if "rows_in" not in rec else [None] * rec["rows_in"], "predict": p}
             for sig, msg in oracle_hp(c1, res, flags):
                 sig["position_in_sequence"] = "first" if pos == 0 else "after another zone"
